@@ -972,3 +972,65 @@ mut('c16-stop-waits-idle-after-flag', 'C16', ['C16.5'], S,
     "        # Clear references\n        self._runloop_task = None\n",
     "        # Clear references\n        self._runloop_task = None\n        if timeout:\n            await asyncio.wait_for(self.wait_until_idle(timeout=timeout), timeout=timeout)\n",
     'stop() calls wait_until_idle() (which calls _start()) after clearing the flag: the bus is restarted')
+
+# ================================================================================================ obligations added after the first independently written regressions
+mut('c01-dispatch-early-return', 'C01', ['C01.8'], S,
+    "                f'⚠️ {self}.dispatch({event.event_type}) - Bus already in path, not adding again. Path: {event.event_path}'\n            )\n",
+    "                f'⚠️ {self}.dispatch({event.event_type}) - Bus already in path, not adding again. Path: {event.event_path}'\n            )\n            return event\n",
+    're-dispatch to a bus already in the path returns without enqueuing')
+mut('c02-wait-instead-of-join', 'C02', ['C02.5'], S,
+    "                    await asyncio.wait_for(handler_task, timeout=0.1)\n                except (asyncio.CancelledError, TimeoutError):\n                    pass  # Expected when we cancel the task\n",
+    "                    await asyncio.wait({handler_task}, timeout=0.1)\n                except (asyncio.CancelledError, TimeoutError):\n                    pass  # Expected when we cancel the task\n",
+    'cleanup stops waiting after 0.1 s instead of joining the cancelled handler')
+mut('c03-no-pending-precreate', 'C03', ['C03.6'], S,
+    "        for handler_id, handler in applicable_handlers.items():\n            if handler_id not in event.event_results:\n                event.event_result_update(\n                    handler=handler, eventbus=self, status='pending', timeout=timeout or event.event_timeout\n                )\n",
+    "",
+    'pending results are no longer registered before the handlers run')
+mut('c04-skip-buses-not-in-path', 'C04', ['C04.4'], M,
+    "                            # Process one event from this bus if available\n",
+    "                            if bus.name not in self.event_path:\n                                continue\n                            # Process one event from this bus if available\n",
+    'inline loop only drains buses on the awaited event\'s path')
+mut('c04-children-check-direct-only', 'C04', ['C04.5'], M,
+    "            if not child_event.event_are_all_children_complete(_visited):\n                return False\n", "",
+    'grandchildren not checked (completion signal set early)')
+mut('c05-step-conditional-lock', 'C05', ['C05.3'], S,
+    "            async with _get_global_lock():\n                # Process the event\n                await self.process_event(event, timeout=timeout)\n",
+    "            if any(inspect.iscoroutinefunction(h) for h in self.handlers.get(event.event_type, [])):\n                async with _get_global_lock():\n                    await self.process_event(event, timeout=timeout)\n            else:\n                await self.process_event(event, timeout=timeout)\n",
+    'sync-only events processed without the global lock')
+mut('c06-runloop-context-keeps-lock-flag', 'C06', ['C06.3'], S,
+    "                self._runloop_task = loop.create_task(self._run_loop(), name=f'{self}._run_loop')\n",
+    "                self._runloop_task = loop.create_task(self._run_loop(), name=f'{self}._run_loop', context=contextvars.copy_context())\n",
+    None) if False else None
+mut2('c06-runloop-prepared-context-incomplete', 'C06', ['C06.3'], [
+    (S, "                self._runloop_task = loop.create_task(self._run_loop(), name=f'{self}._run_loop')\n",
+        "                self._runloop_task = loop.create_task(self._run_loop(), name=f'{self}._run_loop', context=contextvars.copy_context())\n"),
+    (S, "        holds_global_lock.set(False)\n        inside_handler_context.set(False)\n", "        inside_handler_context.set(False)\n"),
+], 'run-loop task gets an explicit copy of the creator context and no longer resets the lock flag')
+mut('c08-signal-without-children', 'C08', ['C08.4'], M,
+    "            if not self.event_are_all_children_complete():\n", "            if False and not self.event_are_all_children_complete():\n",
+    'completion signalled before the children are complete')
+mut('c08-precreate-only-first', 'C08', ['C08.5'], S,
+    "        for handler_id, handler in applicable_handlers.items():\n            if handler_id not in event.event_results:\n                event.event_result_update(\n",
+    "        for handler_id, handler in list(applicable_handlers.items())[:1]:\n            if handler_id not in event.event_results:\n                event.event_result_update(\n",
+    'only the first handler gets a pending result')
+mut('c09-inline-await-untimed', 'C09', ['C09.8'], S,
+    "            if inspect.iscoroutinefunction(handler):\n                # Create a task for the handler so we can properly cancel it on timeout\n",
+    "            if inspect.iscoroutinefunction(handler) and event_result.timeout is None:\n                result_value: Any = await handler(event)  # type: ignore\n            elif inspect.iscoroutinefunction(handler):\n                # Create a task for the handler so we can properly cancel it on timeout\n",
+    'untimed async handlers awaited inline in the shared context')
+mut('c10-inline-await-falsy-timeout', 'C10', ['C10.1'], S,
+    "            if inspect.iscoroutinefunction(handler):\n                # Create a task for the handler so we can properly cancel it on timeout\n",
+    "            if inspect.iscoroutinefunction(handler) and not event_result.timeout:\n                result_value: Any = await handler(event)  # type: ignore\n            elif inspect.iscoroutinefunction(handler):\n                # Create a task for the handler so we can properly cancel it on timeout\n",
+    'event_timeout=0 treated like no timeout')
+mut('c10-timeout-aborts-loop', 'C10', ['C10.7'], S,
+    "                    await self.execute_handler(event, handler, timeout=timeout)\n                except Exception as e:",
+    "                    await self.execute_handler(event, handler, timeout=timeout)\n                except (ValueError, RuntimeError) as e:",
+    'a TimeoutError from one handler aborts the remaining handlers')
+mut('c11-log-before-record', 'C11', ['C11.2'], S,
+    "            # Record error\n            event.event_result_update(handler=handler, eventbus=self, error=e)\n\n            red = '\\033[91m'\n            reset = '\\033[0m'\n            logger.error(\n                f'❌ {self} Error in event handler {get_handler_name(handler)}({event}) -> \\n{red}{type(e).__name__}({e}){reset}\\n{_log_filtered_traceback(e)}',\n            )\n",
+    "            red = '\\033[91m'\n            reset = '\\033[0m'\n            logger.error(\n                f'❌ {self} Error in event handler {get_handler_name(handler)}({event}) -> \\n{red}{type(e).__name__}({e}){reset}\\n{_log_filtered_traceback(e)}',\n            )\n            # Record error\n            event.event_result_update(handler=handler, eventbus=self, error=e)\n",
+    'error logged (traceback filter can raise RecursionError on chained exceptions) before it is recorded')
+mut('c12-flat-filter-in-loop', 'C12', ['C12.3'], M,
+    "            include=lambda event_result: isinstance(event_result.result, list) and include(event_result),",
+    "            include=include,",
+    'flat_list judges raise_if_none over results of any shape')
+MUTANTS[:] = [m for m in MUTANTS if m is not None]
